@@ -650,6 +650,11 @@ func (s *StateDB) Commit(deleteEmptyObjects bool) (root common.Hash, err error) 
 			s.updateStateObject(stateObject)
 		}
 		delete(s.stateObjectsDirty, addr)
+		// The object is clean again: re-arm its dirty callback, or a later
+		// change through this StateDB would never be written back, and forget
+		// the touch of the finished transaction.
+		stateObject.onDirty = s.MarkStateObjectDirty
+		stateObject.touched = false
 	}
 	// Write trie changes.
 	root, err = s.trie.Commit(func(leaf []byte, parent common.Hash) error {
